@@ -48,6 +48,7 @@ type HarnessResult struct {
 	Nondet      []string
 	Aborted     string
 	KnownSeen   map[string]string
+	KnownCex    []*KnownCex
 	Bounds      map[string]int
 	Violations  []*Violation
 	Confirmed   []string // replay files of confirmed violations
@@ -297,6 +298,7 @@ func runHarness(ld *loaded, h harnessRef, cfg *Config, known map[string]bool, de
 		res.Cuts = e.Cuts
 		res.Nondet = e.Nondet
 		res.KnownSeen = e.KnownSeen
+		res.KnownCex = e.KnownCex
 		res.Bounds = e.opts.Bounds
 		res.Violations = e.Violations
 		// witnesses for native validation: models of cover points / reached assertions
